@@ -45,3 +45,13 @@ Theorem C10_fingerprint_single_byte_detected : forall pre x v post,
   N.lxor (crc32 (pre ++ v :: post)) 0x5354554e <> N.lxor (crc32 (pre ++ x :: post)) 0x5354554e.
 Proof. exact CrcBytes.fingerprint_single_byte_detected. Qed.
 Print Assumptions C10_crc32_single_byte_detected.
+
+(* ---- the property in exactly the form in which the implementation is judged: the spec monitor of this property
+   (Agent/Monitors.v, from the property text; it runs on every observed call of the implementation) accepts EVERY step of
+   EVERY well-formed history of the model (fresh transaction ids, monotone instants, positive RTO), for every configuration
+   and credential mechanism (Proofs/AgentMeets.v: obs_of, run_mon; Proofs/AgentMeets2.v) *)
+From Rustun Require Import Agent.Rto Agent.Model Agent.Monitors Proofs.AgentMeets Proofs.AgentMeets2.
+Theorem C10_model_meets_monitor : forall (cf:config) (m:mech) (mc:mcfg) (cc:ccfg) (ops:list op),
+  consistent mc cf -> consistent_cc cc cf m -> well_formed_history ops -> verdicts_true 10 (run_mon mc cc (init cf m) (mall0 cc) ops).
+Proof. exact AgentMeets2.model_meets_C10. Qed.
+Print Assumptions C10_model_meets_monitor.
